@@ -3,7 +3,7 @@ import RisorModel.C07.Model
 /-!
 Line-protocol front end of the C07 model (requests after the leading `C07` field).
 
-  hist <inv> <inv> …      inv  = kind:beh:depth:pend:v:bump:bg:imp:pre:during:ctx:grows:sched
+  hist <inv> <inv> …      inv  = kind:beh:depth:pend:v:bump:bg:imp:pre:during:ctx:grows:lay:lkpre:lkpost:sched
                           kind ∈ run|runcode|call, or `runcode@j` (re-supply the code object compiled
                           for invocation j)   beh ∈ normal|err|panic|overflow|selfcancel
                           bg ∈ 0|1   imp ∈ 0|1|2|3 (bit 0: import hostmod, bit 1: import fmod), with
@@ -15,7 +15,18 @@ Line-protocol front end of the C07 model (requests after the leading `C07` field
                           into before the invocation starts     sched ∈ e|f|l (when the watcher of an
                           already cancelled context stores halt: before the first poll | after the
                           first instruction | before RunCode's reset clears halt again - OBSERVED)
-  reply: ok <res> <res> … res  = implOutcome,sp,fp,halt,running,startCount,haltBeforeStart,specOutcome,staleFires,fpAtLeaf,importFails,leafReached,moduleCodeRan,len(vm.modules),contextAlreadyCancelled,lostFires,executedGeneration,currentGeneration
+                          lay = `_` or hset.fills.swap.pads: the layout of the globals of the code
+                          object compiled for the invocation (RunCode: the object it is handed;
+                          Call: the definitions loaded when the VM has no code)
+                          lkpre, lkpost = `_` or global NAMES joined by `.` that the host looks up
+                          (`vm.Get`) before / after the invocation: h<i> (i-th host name), a0/o0
+                          (`act`/`over`), a<k+1>/o<k+1> (`act_k`/`over_k` of REPL snippet k), f<i>,
+                          g<i>, w (`who`), e (`aaa`), x (a name nobody defines)
+  reply: ok <res> <res> … res  = implOutcome,sp,fp,halt,running,startCount,haltBeforeStart,specOutcome,staleFires,fpAtLeaf,importFails,leafReached,moduleCodeRan,len(vm.modules),contextAlreadyCancelled,lostFires,executedGeneration,currentGeneration,
+                               preGets,postGets,postSpecs,globalNames,callTarget,specGlobalNames
+                          (lists joined by `;`, `-` = empty; a Get answer is nocode | notfound | nil |
+                          host<i> | fn:<name>@<main|c<j>|setup> | int:<v>; a Spec is `~` where the
+                          property demands nothing by itself)
 -/
 namespace Risor.C07
 
@@ -61,6 +72,65 @@ def parseInv (s : String) : Option Inv :=
            ctx, grows, sched }
   | _ => none
 
+def parseName (s : String) : Option GName :=
+  match s.toList with
+  | ['w'] => some .who
+  | ['x'] => some .nosuch
+  | ['e'] => some .extra
+  | c :: rest =>
+    let num := (String.ofList rest).toNat?
+    if c = 'h' then num.map .host
+    else if c = 'a' then num.map .act
+    else if c = 'o' then num.map .over
+    else if c = 'f' then num.map .fill
+    else if c = 'g' then num.map .pad
+    else none
+  | [] => none
+
+def parseNames (s : String) : Option (List GName) :=
+  if s = "_" then some [] else (s.splitOn ".").mapM parseName
+
+def parseLay (s : String) : Option Lay :=
+  if s = "_" then some {} else
+  match (s.splitOn ".").mapM String.toNat? with
+  | some [r, f, sw, p] => some { hset := r, fills := f, swap := sw == 1, pads := p }
+  | _ => none
+
+def showName : GName → String
+  | .host i => "h" ++ toString i
+  | .act s => "a" ++ toString s
+  | .over s => "o" ++ toString s
+  | .fill i => "f" ++ toString i
+  | .pad i => "g" ++ toString i
+  | .who => "w"
+  | .nosuch => "x"
+  | .extra => "e"
+
+def showOwner : Owner → String
+  | .main => "main"
+  | .code j => "c" ++ toString j
+  | .setup => "setup"
+
+def showGot : Got → String
+  | .noCode => "nocode"
+  | .notFound => "notfound"
+  | .val .unbound => "nil"
+  | .val (.host i) => "host" ++ toString i
+  | .val (.fn n o) => "fn:" ++ showName n ++ "@" ++ showOwner o
+  | .val (.int v) => "int:" ++ toString v
+
+def joinOr (xs : List String) : String := if xs.isEmpty then "-" else String.intercalate ";" xs
+
+def parseLInv (s : String) : Option LInv :=
+  match s.splitOn ":" with
+  | [k, b, d, p, v, bu, bg, im, pre, du, cx, gr, ly, lp, lq, sc] => do
+    let inv ← parseInv (String.intercalate ":" [k, b, d, p, v, bu, bg, im, pre, du, cx, gr, sc])
+    let lay ← parseLay ly
+    let lpre ← parseNames lp
+    let lpost ← parseNames lq
+    pure { inv, lay, pre := lpre, post := lpost }
+  | _ => none
+
 def showOutcome : Outcome → String
   | .ok v => "ok=" ++ toString v
   | .okHook => "ok=hook"
@@ -73,9 +143,12 @@ def showOutcome : Outcome → String
 
 def b01 (b : Bool) : String := if b then "1" else "0"
 
-def resFrom (s : St) (k : Nat) : List Inv → List String
+def resFrom (s : St) (g : GSt) (k : Nat) : List LInv → List String
   | [] => []
-  | inv :: rest =>
+  | x :: rest =>
+    let inv := x.inv
+    let lk := looked g s k x
+    let g' := ginvoke g s k inv x.lay
     let pre := preState s k inv
     let r := invoke s k inv
     let line := String.intercalate ","
@@ -84,13 +157,17 @@ def resFrom (s : St) (k : Nat) : List Inv → List String
        b01 (staleFires s k inv), toString (leafFp s k inv), b01 (importFails s k inv),
        b01 (leafReached s k inv), b01 (modRan s k inv), toString (modCount r.1),
        b01 (dead s k inv), b01 (lostFires s k inv), toString (bodyState s k inv).cur,
-       toString (curGen s k inv)]
-    line :: resFrom r.1 (k + 1) rest
+       toString (curGen s k inv),
+       joinOr (lk.pre.map showGot), joinOr (lk.post.map (fun p => showGot p.1)),
+       joinOr (lk.post.map (fun p => match p.2 with | some x => showGot x | none => "~")),
+       joinOr (lk.names.map showName), showName (callTarget g'),
+       (match specNames s k inv x.lay with | some ns => joinOr (ns.map showName) | none => "~")]
+    line :: resFrom r.1 g' (k + 1) rest
 
 def handle : List String → String
   | "hist" :: invs =>
-    match invs.mapM parseInv with
-    | some h => String.intercalate "\t" ("ok" :: resFrom (fresh 0) 0 h)
+    match invs.mapM parseLInv with
+    | some h => String.intercalate "\t" ("ok" :: resFrom (fresh 0) {} 0 h)
     | none => "error\tbad-invocation"
   | _ => "error\tunknown-request"
 
